@@ -671,11 +671,32 @@ def method_call(self, st, base, attr, args, node):
                 self.write_field(s, base, cls, "keys", Val(z3.Empty(sort_of(ks.ty)), ks.ty), line)
                 yield s, Val(z3.IntVal(0), "none")
                 return
+            if attr == "values" and not args:
+                vs = fresh_const("vals", z3.SeqSort(sort_of(mp.ty[2])))
+                i = fresh_const("vi", I)
+                s = st.assume(z3.Length(vs) == z3.Length(ks.t))
+                s = s.assume(z3.ForAll([i], z3.Implies(z3.And(i >= 0, i < z3.Length(ks.t)), vs[i] == z3.Select(mp.t, ks.t[i])), patterns=[vs[i]]))
+                ety = ("ref", models.CLASSES[cls].get("elem") or self.c.get("dict_values", {}).get(cls, "opaque")) if mp.ty[2] == "int" else mp.ty[2]
+                yield s, Val(vs, ("seq", ety))
+                return
+            if attr == "update" and len(args) == 1 and is_ref(args[0].ty) and args[0].ty[1].startswith("dict_") \
+                    and models.CLASSES[args[0].ty[1]]["fields"] == models.CLASSES[cls]["fields"] \
+                    and not z3.eq(z3.simplify(z3.Length(ks.t)), z3.IntVal(0)):
+                # general merge: membership is the union, lookups prefer the argument's entries; the position of new keys is left
+                # unspecified (only membership and lookups are used by the code under contract)
+                nk = self.read_field(st, args[0], args[0].ty[1], "keys")
+                nm = self.read_field(st, args[0], args[0].ty[1], "map")
+                k = fresh_const("uk", sort_of(ks.ty[1]))
+                newkeys = fresh_const("ukeys", ks.t.sort())
+                s = st.assume(z3.ForAll([k], z3.Contains(newkeys, z3.Unit(k)) == z3.Or(z3.Contains(ks.t, z3.Unit(k)), z3.Contains(nk.t, z3.Unit(k)))))
+                newmap = z3.Lambda([k], z3.If(z3.Contains(nk.t, z3.Unit(k)), z3.Select(nm.t, k), z3.Select(mp.t, k)))
+                self.write_field(s, base, cls, "keys", Val(newkeys, ks.ty), line)
+                self.write_field(s, base, cls, "map", Val(newmap, mp.ty), line)
+                yield s, Val(z3.IntVal(0), "none")
+                return
             if attr == "update" and len(args) == 1 and is_ref(args[0].ty) and args[0].ty[1] == cls:
                 nk = self.read_field(st, args[0], cls, "keys")
                 nm = self.read_field(st, args[0], cls, "map")
-                if not z3.eq(z3.simplify(z3.Length(ks.t)), z3.IntVal(0)):
-                    raise Unsupported("dict.update on a dict that is not known to be empty")
                 s = st.fork()
                 self.write_field(s, base, cls, "keys", Val(nk.t, ks.ty), line)
                 self.write_field(s, base, cls, "map", Val(nm.t, mp.ty), line)
@@ -683,7 +704,7 @@ def method_call(self, st, base, attr, args, node):
                 return
             if attr == "get" and len(args) == 1 and mp.ty[2] == "int":
                 present = z3.Contains(ks.t, z3.Unit(args[0].t))
-                vty = ("ref", self.c.get("dict_values", {}).get(cls, "opaque"))
+                vty = ("ref", models.CLASSES[cls].get("elem") or self.c.get("dict_values", {}).get(cls, "opaque"))
                 yield st, Val(z3.If(present, z3.Select(mp.t, args[0].t), z3.IntVal(0)), vty)
                 return
             if attr == "get" and len(args) == 2:
